@@ -86,7 +86,15 @@ fn collect_ranges(v: &Value, uri: &str, req_uri: &str, path: &str, out: &mut Vec
             if let Some(u) = o.get("textDocument").and_then(|t| t.get("uri")).and_then(|u| u.as_str()) {
                 ctx = u.to_string();
             }
+            // CallHierarchyIncomingCall: fromRanges are relative to the caller `from`
+            let from_uri = o.get("from").and_then(|f| f.get("uri")).and_then(|u| u.as_str()).map(|s| s.to_string());
             for (k, x) in o {
+                if k == "fromRanges" {
+                    if let Some(fu) = &from_uri {
+                        collect_ranges(x, fu, req_uri, &format!("{}.{}", path, k), out);
+                        continue;
+                    }
+                }
                 if k == "data" || k == "command" || k == "arguments" {
                     continue;
                 }
@@ -141,6 +149,7 @@ struct Ctx {
     sig_seen: HashMap<String, usize>,
     checked: BTreeMap<String, u64>,
     unverifiable: u64,
+    noresult: u64,
     texts: HashMap<String, String>,
 }
 
@@ -178,6 +187,11 @@ impl Ctx {
                     self.count("range-in-document");
                     if !info.range_ok(r) {
                         let why = if r.0 > r.1 { "start-after-end" } else { "out-of-document" };
+                        if r == ((0, 0), (info.lens.len() as u32, 0)) {
+                            // the "whole document" idiom of LuaDocument::get_document_lsp_range: ends one line past the last line
+                            self.v("whole-document-range-ends-at-line-count", format!("{} returned the whole-document range {:?} at {} whose end line {} does not exist ({} lines)", method, r, path, r.1.0, info.lens.len()), doc, text, json!({"method": method}));
+                            continue;
+                        }
                         self.v(&format!("range-{}|{}|{}", why, method, path), format!("{} returned range {:?} at {} that is {} (uri {})", method, r, path, why, uri.rsplit('/').next().unwrap_or("")), doc, text, json!({"range": [r.0.0, r.0.1, r.1.0, r.1.1]}));
                     }
                 }
@@ -463,10 +477,14 @@ fn points(text: &str, rng: &mut Rng, maxpos: usize) -> Points {
     Points { names, completion, any }
 }
 
-fn req(srv: &mut Server, method: &str, params: Value) -> Option<Value> {
+fn req_cx(cx: &mut Ctx, srv: &mut Server, method: &str, params: Value) -> Option<Value> {
     match srv.request(method, params, Duration::from_secs(60)) {
         Outcome::Ok(v) => Some(v),
-        _ => None,
+        _ => {
+            // no result (error response / handler crash): that is property C25's business; counted here
+            cx.noresult += 1;
+            None
+        }
     }
 }
 
@@ -486,25 +504,25 @@ fn run_doc(cx: &mut Ctx, sl: &mut Server, ml: &mut Server, idx: usize, doc: &str
     let mut o = serde_json::Map::new();
     // ---- semantic tokens, both client kinds
     let legend = legend_sizes(&sl.init_result);
-    if let Some(v) = req(sl, "textDocument/semanticTokens/full", json!({"textDocument": td})) {
+    if let Some(v) = req_cx(cx, sl, "textDocument/semanticTokens/full", json!({"textDocument": td})) {
         let d = tokens_of(&v);
         check_tokens(cx, &d, legend, &info, false, doc, text);
         o.insert("tokens_sl".into(), json!(d));
     }
-    if let Some(v) = req(ml, "textDocument/semanticTokens/full", json!({"textDocument": {"uri": uri_ml}})) {
+    if let Some(v) = req_cx(cx, ml, "textDocument/semanticTokens/full", json!({"textDocument": {"uri": uri_ml}})) {
         let d = tokens_of(&v);
         check_tokens(cx, &d, legend_sizes(&ml.init_result), &info, true, doc, text);
         o.insert("tokens_ml".into(), json!(d));
     }
     o.insert("legend".into(), json!([legend.0, legend.1]));
     // ---- document symbols
-    if let Some(v) = req(sl, "textDocument/documentSymbol", json!({"textDocument": td})) {
+    if let Some(v) = req_cx(cx, sl, "textDocument/documentSymbol", json!({"textDocument": td})) {
         check_symbols(cx, &v, None, &info, doc, text);
         cx.check_ranges("textDocument/documentSymbol", &v, &uri, doc, text);
         o.insert("symbols".into(), v);
     }
     // ---- folding ranges
-    if let Some(v) = req(sl, "textDocument/foldingRange", json!({"textDocument": td})) {
+    if let Some(v) = req_cx(cx, sl, "textDocument/foldingRange", json!({"textDocument": td})) {
         check_folds(cx, &v, &info, doc, text);
         o.insert("folds".into(), v);
     }
@@ -514,7 +532,7 @@ fn run_doc(cx: &mut Ctx, sl: &mut Server, ml: &mut Server, idx: usize, doc: &str
             "textDocument/formatting" => json!({"textDocument": td, "options": {"tabSize": 4, "insertSpaces": true}}),
             _ => json!({"textDocument": td}),
         };
-        if let Some(v) = req(sl, m, params) {
+        if let Some(v) = req_cx(cx, sl, m, params) {
             cx.check_ranges(m, &v, &uri, doc, text);
             if m == "textDocument/formatting" {
                 if let Some(a) = v.as_array() {
@@ -535,7 +553,7 @@ fn run_doc(cx: &mut Ctx, sl: &mut Server, ml: &mut Server, idx: usize, doc: &str
             "textDocument/rangeFormatting" => json!({"textDocument": td, "range": whole, "options": {"tabSize": 4, "insertSpaces": true}}),
             _ => json!({"textDocument": td, "range": whole}),
         };
-        if let Some(v) = req(sl, m, params) {
+        if let Some(v) = req_cx(cx, sl, m, params) {
             cx.check_ranges(m, &v, &uri, doc, text);
         }
     }
@@ -543,7 +561,7 @@ fn run_doc(cx: &mut Ctx, sl: &mut Server, ml: &mut Server, idx: usize, doc: &str
     // ---- selection ranges
     let mut sels = Vec::new();
     for p in &pts.any {
-        if let Some(v) = req(sl, "textDocument/selectionRange", json!({"textDocument": td, "positions": [{"line": p.0, "character": p.1}]})) {
+        if let Some(v) = req_cx(cx, sl, "textDocument/selectionRange", json!({"textDocument": td, "positions": [{"line": p.0, "character": p.1}]})) {
             if let Some(first) = v.get(0) {
                 let chain = selection_chain(first);
                 check_selection(cx, &chain, *p, &info, doc, text);
@@ -555,7 +573,7 @@ fn run_doc(cx: &mut Ctx, sl: &mut Server, ml: &mut Server, idx: usize, doc: &str
     // ---- completion
     let mut comps = Vec::new();
     for p in &pts.completion {
-        if let Some(v) = req(sl, "textDocument/completion", json!({"textDocument": td, "position": {"line": p.0, "character": p.1}, "context": {"triggerKind": 1}})) {
+        if let Some(v) = req_cx(cx, sl, "textDocument/completion", json!({"textDocument": td, "position": {"line": p.0, "character": p.1}, "context": {"triggerKind": 1}})) {
             check_completion(cx, &v, *p, &info, doc, text);
             cx.check_ranges("textDocument/completion", &v, &uri, doc, text);
             let items = if let Some(a) = v.as_array() { a.clone() } else { v.get("items").and_then(|i| i.as_array()).cloned().unwrap_or_default() };
@@ -578,7 +596,7 @@ fn run_doc(cx: &mut Ctx, sl: &mut Server, ml: &mut Server, idx: usize, doc: &str
     let mut edit_sets: Vec<Value> = Vec::new();
     for p in &pts.names {
         let pj = json!({"line": p.0, "character": p.1});
-        if let Some(v) = req(sl, "textDocument/rename", json!({"textDocument": td, "position": pj, "newName": "renamed_1"})) {
+        if let Some(v) = req_cx(cx, sl, "textDocument/rename", json!({"textDocument": td, "position": pj, "newName": "renamed_1"})) {
             if !v.is_null() {
                 check_workspace_edit(cx, "textDocument/rename", &v, doc, text, json!([p.0, p.1]));
                 cx.check_ranges("textDocument/rename", &v, &uri, doc, text);
@@ -592,7 +610,7 @@ fn run_doc(cx: &mut Ctx, sl: &mut Server, ml: &mut Server, idx: usize, doc: &str
         for m in ["textDocument/hover", "textDocument/definition", "textDocument/implementation", "textDocument/references", "textDocument/documentHighlight",
                   "textDocument/prepareRename", "textDocument/prepareCallHierarchy", "textDocument/signatureHelp"] {
             let params = if m == "textDocument/references" { json!({"textDocument": td, "position": pj, "context": {"includeDeclaration": true}}) } else { json!({"textDocument": td, "position": pj}) };
-            if let Some(v) = req(sl, m, params) {
+            if let Some(v) = req_cx(cx, sl, m, params) {
                 cx.check_ranges(m, &v, &uri, doc, text);
                 if m == "textDocument/prepareCallHierarchy" {
                     if let Some(a) = v.as_array() {
@@ -603,7 +621,7 @@ fn run_doc(cx: &mut Ctx, sl: &mut Server, ml: &mut Server, idx: usize, doc: &str
                                     cx.v("call-hierarchy-selection-outside-range", format!("call hierarchy item {}: selectionRange {:?} not inside range {:?}", it["name"], s, r), doc, text, json!({}));
                                 }
                             }
-                            if let Some(v2) = req(sl, "callHierarchy/incomingCalls", json!({"item": it})) {
+                            if let Some(v2) = req_cx(cx, sl, "callHierarchy/incomingCalls", json!({"item": it})) {
                                 cx.check_ranges("callHierarchy/incomingCalls", &v2, &uri, doc, text);
                             }
                         }
@@ -613,11 +631,11 @@ fn run_doc(cx: &mut Ctx, sl: &mut Server, ml: &mut Server, idx: usize, doc: &str
         }
     }
     // code actions: diagnostics pulled from the server itself, then asked back
-    if let Some(v) = req(sl, "textDocument/diagnostic", json!({"textDocument": td})) {
+    if let Some(v) = req_cx(cx, sl, "textDocument/diagnostic", json!({"textDocument": td})) {
         let items = v.get("items").and_then(|i| i.as_array()).cloned().unwrap_or_default();
         for d in items.iter().take(maxpos) {
             if let Some(r) = d.get("range") {
-                if let Some(v2) = req(sl, "textDocument/codeAction", json!({"textDocument": td, "range": r, "context": {"diagnostics": [d]}})) {
+                if let Some(v2) = req_cx(cx, sl, "textDocument/codeAction", json!({"textDocument": td, "range": r, "context": {"diagnostics": [d]}})) {
                     cx.check_ranges("textDocument/codeAction", &v2, &uri, doc, text);
                     let mut wes = Vec::new();
                     find_workspace_edits(&v2, &mut wes);
@@ -702,10 +720,11 @@ fn main() {
             let lib = vec![("lib/util.lua".to_string(), "local M = {}\n---@param s string\n---@return string\nfunction M.trim(s) return s end\nreturn M\n".to_string())];
             let mut sl = Server::start("c26sl", caps(false), &lib);
             let mut ml = Server::start("c26ml", caps(true), &lib);
-            let mut cx = Ctx { viol: vec![], sig_seen: HashMap::new(), checked: BTreeMap::new(), unverifiable: 0, texts: HashMap::new() };
+            let mut cx = Ctx { viol: vec![], sig_seen: HashMap::new(), checked: BTreeMap::new(), unverifiable: 0, noresult: 0, texts: HashMap::new() };
             let mut kinds: BTreeMap<String, u64> = BTreeMap::new();
             let mut distinct: HashSet<u64> = HashSet::new();
             let maxchars = args.usize("maxchars", 1_000_000);
+            let mut obs_left = args.usize("obs", 0);
             let mut ndocs = 0;
             for (i, (name, text)) in docs.iter().enumerate() {
                 if is_obs && text.chars().count() > maxchars {
@@ -721,10 +740,12 @@ fn main() {
                     distinct.insert(h.finish());
                 }
                 let mp = if name.starts_with("std:") { maxpos / 2 + 1 } else { maxpos };
-                if is_obs {
+                let emit = is_obs || (obs_left > 0 && text.chars().count() <= maxchars);
+                if emit {
+                    obs_left = obs_left.saturating_sub(1);
                     let mut o = serde_json::Map::new();
                     run_doc(&mut cx, &mut sl, &mut ml, i, name, text, &mut rng, mp, Some(&mut o));
-                    println!("{}", Value::Object(o));
+                    println!("{}", json!({"obs": Value::Object(o)}));
                 } else {
                     run_doc(&mut cx, &mut sl, &mut ml, i, name, text, &mut rng, mp, None);
                 }
@@ -736,10 +757,62 @@ fn main() {
                 let hits: BTreeMap<String, usize> = cx.sig_seen.iter().map(|(k, v)| (k.clone(), *v)).collect();
                 println!("{}", json!({"summary": {"documents": ndocs, "requests": sl.requests + ml.requests, "distinct_nontrivial": distinct.len(),
                     "documents_by_kind": kinds, "checked_items": cx.checked, "ranges_in_unreadable_documents": cx.unverifiable,
-                    "violation_counts_by_signature": hits, "panics_recorded": drv::panic_count()}}));
+                    "violation_counts_by_signature": hits, "panics_recorded": drv::panic_count(), "requests_without_result": cx.noresult,
+                    "panic_messages": drv::PANICS.lock().map(|p| p.iter().cloned().collect::<std::collections::BTreeSet<_>>()).unwrap_or_default()}}));
             }
             sl.cleanup();
             ml.cleanup();
+            std::process::exit(0);
+        }
+        "build" => {
+            // correspondence of the semantic-token encoder: the REAL push_data/build through the hook
+            use emmylua_code_analysis::{Emmyrc, Vfs, VirtualUrlGenerator};
+            let n = args.usize("n", 200);
+            let alphabet: Vec<char> = vec!['a', 'b', ' ', '\n', '\n', '\r', 'é', '😀', '-', '中'];
+            for i in 0..n {
+                let len = 1 + rng.below(args.usize("maxlen", 30));
+                let mode = rng.below(4);
+                let text: String = (0..len).map(|_| match mode {
+                    0 => *rng.pick(&['a', 'b', '\n', ' ']),
+                    1 => *rng.pick(&['a', '\r', '\n', 'b', 'c']),
+                    _ => *rng.pick(&alphabet),
+                }).collect();
+                let bs: Vec<usize> = (0..=text.len()).filter(|o| text.is_char_boundary(*o)).collect();
+                let np = 1 + rng.below(8);
+                let mut pushes: Vec<(u32, u32, u32, u32)> = Vec::new();
+                for _ in 0..np {
+                    let a = bs[rng.below(bs.len())];
+                    let span = rng.below(4);
+                    let bi = bs.iter().position(|x| *x == a).unwrap();
+                    let b = if rng.chance(1, 5) { bs[rng.range(bi, bs.len() - 1)] } else { bs[(bi + span).min(bs.len() - 1)] };
+                    pushes.push((a as u32, b as u32, rng.below(24) as u32, rng.below(1024) as u32));
+                }
+                if rng.chance(1, 6) && !pushes.is_empty() {
+                    // the same start twice (de-duplicated by start offset)
+                    let p0 = pushes[0];
+                    pushes.push((p0.0, (p0.1 + 1).min(text.len() as u32).max(p0.0), 1, 0));
+                    if !text.is_char_boundary(pushes.last().unwrap().1 as usize) {
+                        pushes.pop();
+                    }
+                }
+                let ml = i % 3 == 2;
+                let mut vfs = Vfs::new();
+                vfs.update_config(Emmyrc::default().into());
+                let vg = VirtualUrlGenerator::new();
+                let uri = vg.new_uri("c26.lua");
+                let id = vfs.set_file_content(&uri, Some(text.clone()));
+                let Some(doc) = vfs.get_document(&id) else { continue };
+                if doc.get_text() != text {
+                    continue;
+                }
+                let out = vh_common::guarded(|| emmylua_ls::verif_semantic_push_and_build(&doc, ml, &pushes));
+                let outv = match out {
+                    Ok(v) => json!(v.iter().map(|t| t.to_vec()).collect::<Vec<_>>()),
+                    Err(_) => json!("P"),
+                };
+                println!("{}", json!({"t": text.chars().map(|c| c as u32).collect::<Vec<_>>(), "ml": ml,
+                    "pushes": pushes.iter().map(|p| vec![p.0, p.1, p.2, p.3]).collect::<Vec<_>>(), "out": outv}));
+            }
             std::process::exit(0);
         }
         "one" => {
@@ -747,7 +820,7 @@ fn main() {
             let lib: Vec<(String, String)> = vec![];
             let mut sl = Server::start("c26one_sl", caps(false), &lib);
             let mut ml = Server::start("c26one_ml", caps(true), &lib);
-            let mut cx = Ctx { viol: vec![], sig_seen: HashMap::new(), checked: BTreeMap::new(), unverifiable: 0, texts: HashMap::new() };
+            let mut cx = Ctx { viol: vec![], sig_seen: HashMap::new(), checked: BTreeMap::new(), unverifiable: 0, noresult: 0, texts: HashMap::new() };
             run_doc(&mut cx, &mut sl, &mut ml, 0, "one", &text, &mut rng, args.usize("maxpos", 40), None);
             println!("{}", json!({"replay": "c26 one"}));
             for v in &cx.viol {
